@@ -447,6 +447,22 @@ Definition prov6_resolved (q : prov6) (sid duid : N) (isreq : bool) (a6 : option
                | Some _ => match passoc duid (n_pd q) with Some (_, s', _) => s' =? sid | None => false end
                end in
   if negb isreq && have6 && haved then (q, true) else
+  (* the resolver names the pool only in the call that takes the address from it; re-reserving the same address /
+     prefix for the same session keeps the name the old lease recorded (/repo 277708f) *)
+  let k6 := match k6, a6 with
+            | None, Some a => match passoc duid (n_iana q) with
+                              | Some (a', s', pool') => if (s' =? sid) && (a' =? a) then pool' else None
+                              | None => None
+                              end
+            | _, _ => k6
+            end in
+  let kd := match kd, ad with
+            | None, Some x => match passoc duid (n_pd q) with
+                              | Some (x', s', pool') => if (s' =? sid) && item_eqb x' x then pool' else None
+                              | None => None
+                              end
+            | _, _ => kd
+            end in
   let r6 := match a6 with
             | None => Some q
             | Some a => match assoc a (n_addr q) with
